@@ -287,7 +287,16 @@ class ModuleSrc:
                      if isinstance(st, (ast.FunctionDef, ast.ClassDef, ast.AsyncFunctionDef)) and st.name == p]
             if not cands:
                 raise Unsupported(f"{self.relpath}: cannot locate {qualname}")
-            node = cands[which if k == len(parts) - 1 and which < len(cands) else 0]
+            if callable(which) and k == len(parts) - 1 and len(parts) == 1:
+                # several conditional definitions at module level: the contract says in which world it speaks
+                # (which(node, guards) -> bool, guards = [(test AST, polarity)] of the enclosing ifs), not which position
+                picked = [st for st, guards in self.guarded_defs(p) if st in cands and which(st, guards)]
+                if len(picked) != 1:
+                    raise Unsupported(f"{self.relpath}: {len(picked)} definitions of {qualname} match the contract's world")
+                node = picked[0]
+            else:
+                w = which if isinstance(which, int) else 0
+                node = cands[w if k == len(parts) - 1 and w < len(cands) else 0]
             body = node.body
         return node
 
